@@ -209,3 +209,92 @@ func zzC20Pool(firstOp int) {
 	}
 	zzverif.Reach("end")
 }
+
+// zzH_C20_truncate_pending: the global pending limit, from a directly constructed pool: three
+// accounts with 0..5 gap-free pending transactions each (one of them possibly local),
+// AccountSlots 1, GlobalSlots 4; one call of the real truncatePending.  Afterwards the pool
+// is within the global limit unless every remote account is within its own allowance;
+// locals and accounts within their allowance lose nothing; eviction stops within one round of the limit;
+// every list is still gap-free and lookup, price heap and pending nonces follow.
+func zzH_C20_truncate_pending() {
+	const accounts = 3
+	st := zzNewState()
+	for i := 0; i < accounts; i++ {
+		st.SetBalance(common.Address{0x10 + byte(i)}, big.NewInt(1<<40))
+	}
+	st.Finalise(false)
+	signer := types.NewYouSigner(1)
+	pool := &TxPool{
+		config:        TxPoolConfig{PriceBump: 10, AccountSlots: 1, GlobalSlots: 4, AccountQueue: 2, GlobalQueue: 3, Lifetime: time.Hour},
+		chain:         &zzC20pChain{},
+		signer:        signer,
+		gasPrice:      big.NewInt(1),
+		currentState:  st,
+		pendingNonces: newTxNoncer(st),
+		currentMaxGas: 1 << 30,
+		locals:        newAccountSet(signer),
+		pending:       map[common.Address]*txList{},
+		queue:         map[common.Address]*txList{},
+		beats:         map[common.Address]time.Time{},
+		all:           newTxLookup(),
+	}
+	pool.priced = newTxPricedList(pool.all)
+	to := common.Address{0x99}
+	var before [accounts]int
+	total := 0
+	for i := 0; i < accounts; i++ {
+		addr := common.Address{0x10 + byte(i)}
+		before[i] = zzverif.Choose("account.pending", 6)
+		if before[i] == 0 {
+			continue
+		}
+		pool.pending[addr] = newTxList(true)
+		for n := 0; n < before[i]; n++ {
+			tx := types.NewTransaction(uint64(n), to, new(big.Int), 30000, big.NewInt(1), []byte{byte(i)})
+			pool.pending[addr].Add(tx, 10)
+			pool.all.Add(tx)
+			pool.priced.Put(tx)
+		}
+		pool.pendingNonces.set(addr, uint64(before[i]))
+		total += before[i]
+	}
+	local := zzverif.Bool("thirdAccountIsLocal")
+	if local {
+		pool.locals.add(common.Address{0x10 + 2})
+	}
+	pool.truncatePending()
+	after, offenders := 0, false
+	for i := 0; i < accounts; i++ {
+		addr := common.Address{0x10 + byte(i)}
+		n := 0
+		if l := pool.pending[addr]; l != nil {
+			n = l.Len()
+			for k, tx := range l.Flatten() {
+				zzverif.Assert(tx.Nonce() == uint64(k), "a truncated pending list is still gap-free from the account nonce")
+			}
+		}
+		after += n
+		isLocal := local && i == 2
+		if !isLocal && uint64(n) > pool.config.AccountSlots {
+			offenders = true
+		}
+		if isLocal || uint64(before[i]) <= pool.config.AccountSlots {
+			zzverif.Assert(n == before[i], "locals and accounts within their allowance lose nothing")
+		}
+		zzverif.Assert(n <= before[i] && (n == before[i] || uint64(n) >= pool.config.AccountSlots), "nobody is cut below the per-account allowance")
+		if n < before[i] {
+			zzverif.Assert(pool.pendingNonces.get(addr) == uint64(n), "the pending nonce follows the truncation")
+		}
+	}
+	zzverif.Assert(uint64(after) <= pool.config.GlobalSlots || !offenders, "the pool is within the global pending limit unless every remote account is within its own allowance")
+	if uint64(total) <= pool.config.GlobalSlots {
+		zzverif.Assert(after == total, "nothing is evicted from a pool within the limit")
+	} else {
+		// (a round takes one transaction from every offender, so the last round may overshoot by
+		// fewer than the number of offenders - the statement asks for the limits, not for minimal eviction)
+		zzverif.Assert(uint64(after)+accounts-1 >= pool.config.GlobalSlots, "eviction stops within one round of the limit")
+		zzverif.Reach("truncated")
+	}
+	zzverif.Assert(pool.all.Count() == after, "the lookup holds exactly the remaining transactions")
+	zzverif.Reach("end")
+}
